@@ -17,7 +17,7 @@ func init() {
 	register(&Property{
 		ID:        "C31",
 		Patterns:  []string{"./sql/expression/function", "./sql/planbuilder/dateparse"},
-		Technique: "constant-table extraction (map literal key sets over go/constant) + CFG nil-guard analysis of every use of a table value",
+		Technique: "constant-table extraction (map literal key sets over go/constant) + CFG nil-guard analysis of every use of a table value; path-sensitive pending-error walk over go/cfg",
 		Explanation: "DATE_FORMAT is driven by function.dateFormatSpecifierToFunc (a nil entry delegates the specifier to the default table of the strftime library, letters outside the table are " +
 			"copied literally) and STR_TO_DATE by dateparse.formatSpecifiers (a nil entry means 'not supported for parsing'). Decided: (K1) both tables have the same specifier key set (apart from '%'), " +
 			"so no specifier is formatted as a field by one function and treated as unknown/literal by the other; (K2) every value read from the parser table is used only on paths where it " +
